@@ -271,43 +271,68 @@ func Random(r *rand.Rand) string {
 	if r.Intn(10) == 0 {
 		f.AddGo(pick(r, "css cl() {\n\tcolor: red;\n}", "css cl(v string) { color: { v }; }", "script sc(a string) {\n\talert(a);\n}"))
 	}
-	return f.String() + Helpers
+	return f.String()
 }
 
-// Mutate applies 1–3 token-level mutations to src.
+// Mutate applies 1–3 token-level mutations to src. Most change, insert or
+// remove whitespace tokens; comments and nodes are inserted between two nodes
+// or on a line of their own; tokens are (rarely) deleted or duplicated.
 func Mutate(r *rand.Rand, src string) string {
 	toks := tokenize(src)
+	insert := func(i int, t string) { toks = append(toks[:i], append([]string{t}, toks[i:]...)...) }
+	// gap moves i forward to the next position between two nodes or at a line start
+	gap := func(i int, lineOnly bool) int {
+		for k := 0; k < len(toks); k++ {
+			j := (i + k) % len(toks)
+			if j == 0 {
+				continue
+			}
+			if strings.HasSuffix(toks[j-1], "\n") || (!lineOnly && (toks[j-1] == ">" || toks[j] == "<")) {
+				return j
+			}
+		}
+		return i
+	}
+	nextWS := func(i int) int {
+		for k := 0; k < len(toks); k++ {
+			if j := (i + k) % len(toks); strings.TrimSpace(toks[j]) == "" {
+				return j
+			}
+		}
+		return -1
+	}
 	n := 1 + r.Intn(3)
 	for m := 0; m < n && len(toks) > 4; m++ {
 		i := r.Intn(len(toks))
-		isWs := strings.TrimSpace(toks[i]) == ""
-		switch op := r.Intn(12); {
-		case op <= 3: // change a whitespace token
-			for k := 0; k < 20 && !isWs; k++ {
-				i = r.Intn(len(toks))
-				isWs = strings.TrimSpace(toks[i]) == ""
+		switch op := r.Intn(26); {
+		case op < 8: // change a whitespace token
+			if j := nextWS(i); j >= 0 {
+				toks[j] = pick(r, "", "", " ", "\n", "\n", "\t", "  ", "\n\n")
 			}
-			if isWs {
-				toks[i] = pick(r, "", "", " ", "\n", "\n", "\t", "  ", "\n\n")
-			}
-		case op == 4: // insert whitespace at a token boundary
-			toks = append(toks[:i], append([]string{pick(r, " ", "\n", "\n\t")}, toks[i:]...)...)
-		case op == 5: // insert a comment
-			toks = append(toks[:i], append([]string{pick(r, "<!-- c -->", "/* c */", "// c\n")}, toks[i:]...)...)
-		case op == 6: // delete a token
+		case op < 10: // insert whitespace at a token boundary
+			insert(i, pick(r, " ", "\n", "\n\t"))
+		case op < 13: // insert a comment
+			c := pick(r, "<!-- c -->", "/* c */", "// c\n")
+			insert(gap(i, c == "// c\n"), c)
+		case op < 14: // delete a token
 			toks = append(toks[:i], toks[i+1:]...)
-		case op == 7: // duplicate a token
-			toks = append(toks[:i], append([]string{toks[i]}, toks[i:]...)...)
-		case op == 8: // swap quotes
+		case op < 15: // duplicate a token
+			insert(i, toks[i])
+		case op < 17: // swap a quote
 			for k := i; k < len(toks); k++ {
 				if toks[k] == `"` {
 					toks[k] = "'"
 					break
 				}
 			}
-		case op == 9: // insert an entity or special character
-			toks = append(toks[:i], append([]string{pick(r, "&amp;", "&lt;", "&quot;", "&amp;lt;", "&#39;", "&")}, toks[i:]...)...)
-		case op == 10: // join two lines / split a line
+		case op < 19: // insert an entity or special character at the start of an attribute value or text
+			for k := i; k < len(toks); k++ {
+				if toks[k] == `"` || toks[k] == ">" || toks[k] == "'" {
+					insert(k+1, pick(r, "&amp;", "&lt;", "&quot;", "&amp;lt;", "&#39;", "&"))
+					break
+				}
+			}
+		case op < 23: // join two lines
 			for k := i; k < len(toks); k++ {
 				if strings.Contains(toks[k], "\n") {
 					toks[k] = pick(r, "", " ")
@@ -315,7 +340,7 @@ func Mutate(r *rand.Rand, src string) string {
 				}
 			}
 		default: // insert a node
-			toks = append(toks[:i], append([]string{pick(r, "@c()", "{ s }", "<br/>", "<span>x</span>", "{{ v := 1 }}", "{ children... }", "aa")}, toks[i:]...)...)
+			insert(gap(i, false), pick(r, "@c()", "{ s }", "<br/>", "<span>x</span>", "{{ v := 1 }}", "{ children... }", "aa", "{! c() }", "<!DOCTYPE html>"))
 		}
 	}
 	return strings.Join(toks, "")
